@@ -14,57 +14,6 @@ Lemma out_of_oracle W c : out_of W c = oracle_out W c.
 Proof. reflexivity. Qed.
 
 (* ================================================================== A. backquotes (fix-4) *)
-Lemma dot_loop_v_S f W tok item log :
-  dot_loop_v (S f) W tok item log
-  = match dot_split tok with
-    | None => Ok (if is_empty tok then item else item ++ tok, log)
-    | Some (h, c, t) =>
-        let item' := item ++ h ++ trim (out_of W c) in
-        if is_empty t then Ok (item', log ++ [c]) else dot_loop_v f W t item' (log ++ [c])
-    end.
-Proof. reflexivity. Qed.
-
-(** one embedded backquote command: its trimmed output is spliced; when the command does not plan the
-    replacement is empty (no previous output is involved any more) *)
-Theorem dot_loop_v_one : forall W h c t item log f,
-  ~ In 96 h -> ~ In 96 c -> c <> [] -> ~ In 96 t -> ~ In 10 t ->
-  dot_loop_v (S (S f)) W (h ++ 96 :: c ++ 96 :: t) item log = Ok (item ++ h ++ trim (out_of W c) ++ t, log ++ [c]).
-Proof.
-  intros W h c t item log f Hh Hc Hne Ht96 Ht10.
-  rewrite dot_loop_v_S. rewrite dot_split_mid by assumption. cbv zeta.
-  destruct t as [|x t].
-  - cbn [is_empty]. rewrite app_nil_r. reflexivity.
-  - cbn [is_empty]. rewrite dot_loop_v_S. rewrite dot_split_no_bq by exact Ht96.
-    cbn [is_empty]. rewrite <- !app_assoc. reflexivity.
-Qed.
-
-Theorem dot_loop_v_two : forall W h1 c1 h2 c2 t f,
-  ~ In 96 h1 -> ~ In 96 c1 -> c1 <> [] -> ~ In 96 h2 -> ~ In 10 h2 -> ~ In 96 c2 -> c2 <> [] -> ~ In 10 c2 ->
-  ~ In 96 t -> ~ In 10 t ->
-  dot_loop_v (S (S (S f))) W (h1 ++ 96 :: c1 ++ 96 :: h2 ++ 96 :: c2 ++ 96 :: t) [] []
-  = Ok (h1 ++ trim (out_of W c1) ++ h2 ++ trim (out_of W c2) ++ t, [c1; c2]).
-Proof.
-  intros W h1 c1 h2 c2 t f Hh1 Hc1 Hne1 Hh2 Hh2n Hc2 Hne2 Hc2n Ht96 Ht10.
-  rewrite dot_loop_v_S.
-  assert (Hn : ~ In 10 (h2 ++ 96 :: c2 ++ 96 :: t)).
-  { intros X. apply in_app_or in X as [X|[X|X]]; [tauto | discriminate |].
-    apply in_app_or in X as [X|[X|X]]; [tauto | discriminate | tauto]. }
-  rewrite (dot_split_mid h1 c1 (h2 ++ 96 :: c2 ++ 96 :: t) Hh1 Hc1 Hne1 Hn). cbv zeta.
-  match goal with
-  | |- context [@is_empty ?A ?x] => replace (@is_empty A x) with false by (destruct h2; reflexivity)
-  end.
-  rewrite dot_loop_v_one by assumption.
-  cbn [app]. rewrite <- !app_assoc. reflexivity.
-Qed.
-
-Example dot_variant_example :
-  let W := world_of [] [([120], Some (s2l "abc")); (s2l "ls >", None)] in
-  dot_loop_v 5 W (s2l "a`x`b`ls >`c") [] [] = Ok (s2l "aabcbc", [[120]; s2l "ls >"])
-  /\ dot_collect_v W [(TBq, s2l "ls >"); (TBq, [120]); (TNone, s2l "z")] 0 []
-     = Ok ([(0%nat, []); (1%nat, s2l "abc")], [s2l "ls >"; [120]]).
-Proof. split; vm_compute; reflexivity. Qed.
-
-(* ================================================================== B. balanced scan (fix-5) *)
 (** a paren-free prefix is copied at every depth *)
 Lemma scan_close_skip (a : str) (d : nat) (r : str) :
   ~ In 40 a -> ~ In 41 a ->
@@ -239,9 +188,6 @@ Example nested_substitution_example :
   = Ok (Some (s2l "N"), [s2l "a $(b)"]).
 Proof. rewrite !dollar_loop_b_S. vm_compute. reflexivity. Qed.
 
-Print Assumptions dot_loop_v_one.
-Print Assumptions dot_loop_v_two.
-Print Assumptions dot_variant_example.
 Print Assumptions scan_close_flat.
 Print Assumptions scan_close_nested.
 Print Assumptions find_dollar_paren_first.
